@@ -29,7 +29,7 @@ ASSUMPTIONS = ['propensities are non-negative, hence Lambda >= 0',
 def check_sim(ctx, key, with_delay):
     sl = simloop.SimLoop(ctx, key)
     sname = sl.state_name()
-    init = sl.prelude_assign(sname)
+    init = sl.prelude_assign(sname, resolve=True)
     ctx.ob('R6.1-state-copy', key, init is not None and src(init).replace(' ', '') == 'sim.get_initial_state().copy()',
            sl.loc(init) if init is not None else sl.where,
            'the working state is a copy of the interface initial state', 'initialised with %s' % (src(init) if init is not None else None))
